@@ -1,14 +1,15 @@
 (** C11 — backing of the voucher coin of an external token pair (a pair listing only that voucher): over every
     history, the voucher's bank supply never exceeds the ERC-20 balance the contract keeps for the module,
-    PROVIDED the external contract (i) reports balances honestly (balanceOf is a view of a ledger) and (ii) never
-    takes from the module more than the module itself transfers out.  (ii) is exactly what the code does not
-    check in convertCoinNativeERC20 (only the receiver's balance is compared); Refuted/C11_refuted.v shows that
-    the invariant fails without it. *)
+    PROVIDED the external contract (i) reports balances honestly (balanceOf is a view of a ledger) and (ii) no
+    call lowers the module's balance other than the module's OWN transfer in the called contract.  What that own
+    transfer takes from the module is NOT a hypothesis any more: since the repair c5eeeaa convertCoinNativeERC20
+    compares the module's balance before and after (before the repair a token charging the sender a fee broke
+    the invariant: Refuted/C11_refuted.v). *)
 From Teleport Require Import Base.Bytes Base.Outcome Model.Convert Proofs.ConvertBase Proofs.ConvertExact
   Proofs.ConvertTokensLemmas Proofs.ConvertBacking.
 Local Open Scope Z_scope.
 
-Definition transfer_amount (cl : call) : Z := match cl with CTransfer _ a => a | _ => 0 end.
+Definition is_transfer (cl : call) : bool := match cl with CTransfer _ _ => true | _ => false end.
 
 Section Voucher.
   Variable X : Type.
@@ -31,15 +32,14 @@ Section Voucher.
     forall x c caller a x' r, xcall x c caller (CBalanceOf a) = (x', r) -> cr_ok r = true ->
       x' = x /\ cr_ret r = Some (ledger x c a).
 
-  (** (ii) a successful call never lowers the module's balance in any contract, except that a transfer made BY
-      the module lowers its balance in THAT contract by at most the transferred amount *)
-  Definition no_overdebit : Prop :=
+  (** (ii) a successful call never lowers the module's balance in any contract -- except the module's own
+      transfer in the called contract, about which nothing is assumed (the code checks its effect) *)
+  Definition others_cannot_debit : Prop :=
     forall x c caller cl x' r, xcall x c caller cl = (x', r) -> cr_ok r = true ->
-      forall c', ledger x c' MODULE - (if (caller =? MODULE) && (c' =? c) then transfer_amount cl else 0)
-                 <= ledger x' c' MODULE.
+      forall c', ((caller =? MODULE) && (c' =? c) && is_transfer cl) = true \/ ledger x c' MODULE <= ledger x' c' MODULE.
 
   Hypothesis HV : honest_view.
-  Hypothesis ND : no_overdebit.
+  Hypothesis ND : others_cannot_debit.
 
   (** every external single-voucher pair is fully backed *)
   Definition VBacked s : Prop :=
@@ -54,21 +54,19 @@ Section Voucher.
 
   (** ** Calls *)
   Lemma tok_exec_ledger tk c caller cl tk' r :
-    tok_exec tk c caller cl = (tk', r) -> (caller = MODULE -> 0 <= transfer_amount cl) ->
-    forall c', ledger (snd tk) c' MODULE - (if (caller =? MODULE) && (c' =? c) then transfer_amount cl else 0)
-               <= ledger (snd tk') c' MODULE.
+    tok_exec tk c caller cl = (tk', r) ->
+    forall c', ((caller =? MODULE) && (c' =? c) && is_transfer cl) = true /\ mfind X tk c = None
+               \/ ledger (snd tk) c' MODULE <= ledger (snd tk') c' MODULE.
   Proof.
-    intros H NN c'.
-    assert (0 <= (if (caller =? MODULE) && (c' =? c) then transfer_amount cl else 0)) as NN'.
-    { destruct (Z.eqb_spec caller MODULE) as [E|_]; cbn [andb]; [|lia]. destruct (c' =? c); [apply NN; exact E | lia]. }
+    intros H c'.
     destruct (mfind X tk c) as [t|] eqn:F.
-    - destruct (tok_exec_mtok X xcall MODULE _ _ _ _ _ _ _ F H) as (t1 & r' & S & [(O & -> & F1 & SN & Oth)|(O & -> & ->)]).
+    - right. destruct (tok_exec_mtok X xcall MODULE _ _ _ _ _ _ _ F H) as (t1 & r' & S & [(O & -> & F1 & SN & Oth)|(O & -> & ->)]).
       + rewrite SN. lia.
       + lia.
     - unfold mfind in F. unfold Convert.tok_exec in H. rewrite F in H.
       destruct (xcall (snd tk) c caller cl) as [x' r'] eqn:XC. destruct (cr_ok r') eqn:O; inversion H; subst.
-      + cbn [snd]. exact (ND _ _ _ _ _ _ XC O c').
-      + lia.
+      + cbn [snd]. destruct (ND _ _ _ _ _ _ XC O c') as [T|L]; [left; split; [exact T | reflexivity] | right; exact L].
+      + right. lia.
   Qed.
 
   Lemma tok_exec_mfind_none tk c caller cl tk' r c' :
@@ -103,16 +101,42 @@ Section Voucher.
     intro H; inversion H; subst. eapply tok_exec_mfind_none; exact E.
   Qed.
 
-  (** the read–call–read pattern: the module's balance in [c'] drops by at most what the module itself
-      transferred out of [c'] *)
+  (** the read–call–read pattern with a call that is not the module's own transfer: the module's balance drops
+      nowhere *)
   Lemma token_effect_ledger tk tk' c caller cl watch dv res :
-    token_effect xcall MODULE tk tk' c caller cl watch dv res -> (caller = MODULE -> 0 <= transfer_amount cl) ->
-    forall c', ledger (snd tk) c' MODULE - (if (caller =? MODULE) && (c' =? c) then transfer_amount cl else 0)
-               <= ledger (snd tk') c' MODULE.
+    token_effect xcall MODULE tk tk' c caller cl watch dv res -> (caller =? MODULE) && is_transfer cl = false ->
+    forall c', ledger (snd tk) c' MODULE <= ledger (snd tk') c' MODULE.
   Proof.
-    intros (tk0 & v0 & tk1 & v1 & B0 & E & O & B1 & V) NN c'.
+    intros (tk0 & v0 & tk1 & v1 & B0 & E & O & B1 & V) NT c'.
     rewrite (tok_balance_snd _ _ _ _ _ B1). rewrite <- (tok_balance_snd _ _ _ _ _ B0).
-    exact (tok_exec_ledger _ _ _ _ _ _ E NN c').
+    destruct (tok_exec_ledger _ _ _ _ _ _ E c') as [[T _]|L]; [|exact L].
+    exfalso. destruct (caller =? MODULE), (is_transfer cl), (c' =? c); cbn in *; discriminate.
+  Qed.
+
+  (** flow 2.2: the module's balance drops in the called contract only, and there by exactly [a] when the
+      contract is external (the code compares the two reads), not at all otherwise *)
+  Lemma token_effect2_ledger tk tk' c r a res :
+    token_effect2 xcall MODULE tk tk' c MODULE (CTransfer r a) r a MODULE (- a) res -> 0 <= a ->
+    forall c', ledger (snd tk) c' MODULE - (if c' =? c then a else 0) <= ledger (snd tk') c' MODULE.
+  Proof.
+    intros (tka & v0 & tkb & e0 & tk1 & tkc & v1 & e1 & B0 & B0' & E & O & B1 & B1' & V & V') P c'.
+    pose proof (tok_balance_snd _ _ _ _ _ B0) as S0. pose proof (tok_balance_snd _ _ _ _ _ B0') as S0'.
+    pose proof (tok_balance_snd _ _ _ _ _ B1) as S1. pose proof (tok_balance_snd _ _ _ _ _ B1') as S1'.
+    rewrite S1', S1, <- S0, <- S0'.
+    destruct (tok_exec_ledger _ _ _ _ _ _ E c') as [[T F]|L].
+    - (* the module's own transfer on the external contract c' = c: use the two reads *)
+      rewrite Z.eqb_refl in T. cbn [andb] in T. rewrite andb_true_r in T. apply Z.eqb_eq in T. subst c'.
+      rewrite Z.eqb_refl.
+      pose proof (tok_balance_mfind_none _ _ _ _ _ _ B0' F) as Fa.
+      destruct (tok_balance_ext _ _ _ _ _ Fa B0') as [EQb ->].
+      assert (F1 : mfind X tk1 c = None).
+      { destruct (mfind X tk1 c) as [t1|] eqn:F1; [|reflexivity].
+        destruct (tok_exec_totals X xcall MODULE _ _ _ _ _ _ E c t1 F1) as (t & F0 & _). congruence. }
+      assert (Fc : mfind X tkc c = None).
+      { destruct (mfind X tkc c) as [t1|] eqn:Fc; [|reflexivity].
+        destruct (tok_balance_totals X xcall MODULE _ _ _ _ _ B1 c t1 Fc) as (t & F0 & _). congruence. }
+      destruct (tok_balance_ext _ _ _ _ _ Fc B1') as [_ ->]. subst tkb. rewrite S1. lia.
+    - destruct (c' =? c); lia.
   Qed.
 
   Lemma token_effect_mfind_none tk tk' c caller cl watch dv res c' :
